@@ -56,3 +56,32 @@ func segDistFresh(lon1, lat1, lon2, lat2 float64, id string) (float64, bool) {
 	m.MeasureNonnegativeDistance()
 	return m.Distance, true
 }
+
+// measureLoop: the corridor's measuring loop (transform/voxel_around_line.go, `if !skipsMeasurement { ... }`) replayed on the IDs and
+// in the order the Coq model hands over (its own sorted candidate list): ONE closest.Measure, ConvexHulls[0] = the segment's two end
+// points through geodesy.GeocentricFromGeodetic{lon, lat, lat}, and for each ID the vertex call, the same conversion of the 8 vertices,
+// ConvexHulls[1] = them, MeasureNonnegativeDistance, Distance. Oracle "mloop". The comparison `dist < radius` is made by the model.
+// ok[i] = false: the vertex call of ID i failed (the loop returns the error there; later entries are not measured).
+func measureLoop(lon1, lat1, lon2, lat2 float64, ids []string) (ds []float64, ok []bool) {
+	a := geodesy.GeocentricFromGeodetic(geodesy.Geodetic{lon1, lat1, lat1})
+	b := geodesy.GeocentricFromGeodetic(geodesy.Geodetic{lon2, lat2, lat2})
+	m := closest.Measure{}
+	m.ConvexHulls[0] = []*mgl64.Vec3{(*mgl64.Vec3)(&a), (*mgl64.Vec3)(&b)}
+	failed := false
+	for _, id := range ids {
+		if failed {
+			ds, ok = append(ds, 0), append(ok, false)
+			continue
+		}
+		hull, good := hullOf(id)
+		if !good {
+			failed = true
+			ds, ok = append(ds, 0), append(ok, false)
+			continue
+		}
+		m.ConvexHulls[1] = hull
+		m.MeasureNonnegativeDistance()
+		ds, ok = append(ds, m.Distance), append(ok, true)
+	}
+	return
+}
